@@ -113,9 +113,63 @@ def union_bound_sweep(ctx, viol, st):
                 viol.append({"signature": "union-bound-exceeds-delta:" + k, "message": f"{k}: numeric union bound {v} > delta {d} at K={K}, m={m}", "replay": {"kind": "sweep", "K": K, "m": m, "delta": d, "which": k}})
 
 
+def realised_mass(ctx, viol, st):
+    """PaVeBa with its real empirical model at contraction 1 on seeded Gaussian observations: every region that
+    modeling() builds has radius r_t (a function of the ROUND) around the mean of the n_i samples the design
+    actually holds; its exact failure probability is P(chi2_m > r_t^2 n_i / noise_var).  The sum over every region
+    built in the run must stay below delta (the schedule theorem C04_paveba speaks about n_i = t, which is what
+    the code assumes: "only active arms are sampled")."""
+    from scipy import stats
+    import algrun, gen, random
+    specs = []
+    # directed: design 0 is clearly optimal and useless to the others (decided within a few rounds), designs 1 and 2
+    # are close and need many rounds; design 3 is clearly dominated
+    for g, nv, delta, eps in ((0.25, 0.01, 0.05, 0.15), (0.5, 0.04, 0.1, 0.25)):
+        specs.append({"Y": [[4.0, -4.0], [0.0, 0.0], [-g, -g], [-3.0, -3.0]], "nv": nv, "delta": delta, "eps": eps, "steps": 150 if ctx.quick else 400, "seed": 7})
+    rng = ctx.rng
+    for _ in range(3 if ctx.quick else 30):
+        K = rng.choice([3, 4, 5])
+        specs.append({"Y": [[rng.randint(-8, 8) / 4.0, rng.randint(-8, 8) / 4.0] for _ in range(K)], "nv": rng.choice([0.01, 0.04]), "delta": rng.choice([0.05, 0.1]),
+                      "eps": rng.choice([0.1, 0.25]), "steps": 60 if ctx.quick else 200, "seed": rng.randint(0, 10 ** 6)})
+    W = gen.CONES_2D["orthant2"][0]
+    for sp in specs:
+        Y = sp["Y"]; K = len(Y); m = 2
+        X = [[(k % 4) / 4.0, (k // 4) / 4.0] for k in range(K)]
+        npr = np.random.RandomState(sp["seed"])
+        noise = npr.randn(sp["steps"] + 2, K, m) * np.sqrt(sp["nv"])
+        a, _ = algrun.build("PaVeBa-real", X, Y, W, sp["eps"], (lambda r, Y=Y: (Y, [[1.0] * 2 for _ in Y])), delta=sp["delta"], noise_var=sp["nv"], contraction=1.0,
+                            obs_noise=lambda r, i, noise=noise: noise[min(r, len(noise) - 1)][i].tolist())
+        calls = []
+        orig = a.design_space.update
+        def wrapped(model, scale, idx=None, _o=orig, calls=calls):
+            calls.append((list(idx) if idx is not None else list(range(K)), float(np.ravel(scale)[0])))
+            return _o(model, scale, idx)
+        a.design_space.update = wrapped
+        mass, worst = 0.0, None
+        for t in range(sp["steps"]):
+            n0 = len(calls)
+            if a.run_one_step():
+                break
+            for idx, r in calls[n0:]:
+                for i in idx:
+                    n_i = len(a.model.design_samples[i])
+                    term = float(stats.chi2.sf(r * r * n_i / sp["nv"], m)) if n_i else 1.0
+                    mass += term
+                    st["regions_built"] += 1
+                    if n_i != a.round:
+                        st["regions_with_fewer_samples_than_rounds"] += 1
+                    if worst is None or term > worst[0]:
+                        worst = (term, i, int(a.round), n_i)
+        st["realised_runs"] += 1
+        if mass > sp["delta"]:
+            viol.append({"signature": "realised-union-bound-mass-exceeds-delta",
+                         "message": f"PaVeBa (contraction 1, delta {sp['delta']}, noise variance {sp['nv']}): the regions built in {int(a.round)} rounds carry a total failure probability of {mass:.4g} > delta; worst region: design {worst[1]} at round {worst[2]} rebuilt with the round's radius while holding {worst[3]} samples (term {worst[0]:.3g})",
+                         "replay": {"kind": "mass", "spec": sp}})
+
+
 def run(ctx):
     viol = []
-    st = {"formula_points": 0, "region_checks": 0, "sweep_points": 0}
+    st = {"formula_points": 0, "region_checks": 0, "sweep_points": 0, "realised_runs": 0, "regions_built": 0, "regions_with_fewer_samples_than_rounds": 0}
     cases = impl_scales(ctx)
     st["formula_points"] = len(cases)
     for fname, args, v, uniform in cases:
@@ -138,10 +192,11 @@ def run(ctx):
         else:
             cb = {"what": "interval validation of the regenerated formulas failed", "log": out[-800:]}
     region_checks(ctx, viol, st)
+    realised_mass(ctx, viol, st)
     if not ctx.quick:
         union_bound_sweep(ctx, viol, st)
     return {"correspondence_broken": cb, "evaluations": sum(st.values()), "distinct_nontrivial": st["formula_points"] + st["region_checks"],
-            "rule": "real algorithm objects (K 2-6, m 2-3, delta, noise variance, contraction, rounds 1-500): the float returned by compute_radius / compute_alpha / compute_beta must lie within 1e-9 of the regenerated Coq expression (proved per point by the interval tactic); the region obtained by feeding a scale and a known (mean, correlated covariance) through design_space.update must be mean +- scale*sqrt(diag cov) / (mean, cov, scale); thorough tier adds a numeric union-bound sweep with exact Gaussian / chi-square tails (a test, not a proof)",
+            "rule": "real algorithm objects (K 2-6, m 2-3, delta, noise variance, contraction, rounds 1-500): the float returned by compute_radius / compute_alpha / compute_beta must lie within 1e-9 of the regenerated Coq expression (proved per point by the interval tactic); the region obtained by feeding a scale and a known (mean, correlated covariance) through design_space.update must be mean +- scale*sqrt(diag cov) / (mean, cov, scale); PaVeBa runs with the real empirical model at contraction 1: the exact chi-square failure probabilities of all regions actually built (round radius vs samples actually held) must sum to at most delta; thorough tier adds a numeric union-bound sweep with exact Gaussian / chi-square tails (a test, not a proof)",
             "samples": [{"formula": c[0], "args": c[1], "value": c[2]} for c in cases[:3]], "violations": viol, "extra": st}
 
 
